@@ -269,6 +269,24 @@ func loadBehav() Behaviours {
 	return m
 }
 
+// OptsFor returns the options of a parsed command with the overrides of the behaviours file applied (process name
+// first, then task key).
+func OptsFor(c *Call, key string) map[string]string {
+	opts := map[string]string{}
+	for k, v := range c.Opts {
+		opts[k] = v
+	}
+	if bh := loadBehav(); bh != nil {
+		for k, v := range bh[c.ID] {
+			opts[k] = v
+		}
+		for k, v := range bh[key] {
+			opts[k] = v
+		}
+	}
+	return opts
+}
+
 // Env abstracts how the protocol ends the caller.
 type Env struct {
 	Cwd    string           // directory the task "runs" in (temp dir); "" = process cwd
